@@ -1,5 +1,158 @@
-import Summer.Model.Build
-namespace Summer.Props.C12
-theorem placeholder : True := trivial
-end Summer.Props.C12
-#print axioms Summer.Props.C12.placeholder
+import Summer.Proofs.Structure
+/-
+C12 (structure part) — deterministic order, distinctness, flow ends.
+
+* `in_place`      : a stratification replaces each stratified compartment, in place, by its strata in
+                    declaration order and leaves everything else where it was.
+* `nodup`         : compartments stay pairwise distinct (structural equality of `Comp`, which is what
+                    the model compares; injectivity of `Comp.serialize` is NOT claimed — that is the
+                    recorded naming assumption: no `X` in names/keys, no `_` in stratification names).
+* `endpoints`     : the invariant `Spec.Inv` (⊇ `Spec.WF`: every flow end is a compartment of the model)
+                    holds for every model reachable through the build API, including after flows are
+                    added to an already stratified model; the index found by `Run.compIdx` is the
+                    position of the end.
+
+`Spec.Reachable` : constructor (distinct compartment names), any `addFlow`, any accepted
+`stratifyWith` whose strata list has no duplicates (the Python constructor does not check this; it is
+the hypothesis `s.strata.Nodup`), any other call that leaves compartments/flows/stratifications alone.
+-/
+namespace Summer.C12
+open Summer Summer.Build Summer.Spec Summer.Proofs.Structure
+
+section
+variable {α : Type}
+
+/-! ### `C12.in_place` -/
+
+theorem in_place (comps : List Comp) (s : Strat α) :
+    stratifyComps comps s
+      = comps.flatMap (fun c => if c.name ∈ s.comps then s.strata.map (c.stratify s.name) else [c]) :=
+  stratifyComps_eq comps s
+
+/-- a stratified compartment is replaced in place by its strata, in declaration order -/
+theorem in_place_stratified (l1 l2 : List Comp) (c : Comp) (s : Strat α) (h : c.name ∈ s.comps) :
+    stratifyComps (l1 ++ c :: l2) s
+      = stratifyComps l1 s ++ s.strata.map (c.stratify s.name) ++ stratifyComps l2 s := by
+  rw [stratifyComps_append, stratifyComps_cons_in c l2 s h, List.append_assoc]
+
+/-- an untouched compartment stays where it was -/
+theorem in_place_untouched (l1 l2 : List Comp) (c : Comp) (s : Strat α) (h : c.name ∉ s.comps) :
+    stratifyComps (l1 ++ c :: l2) s = stratifyComps l1 s ++ c :: stratifyComps l2 s := by
+  rw [stratifyComps_append, stratifyComps_cons_out c l2 s h]
+
+/-- the relative order of the untouched compartments is preserved -/
+theorem untouched_order (comps : List Comp) (s : Strat α) :
+    (stratifyComps comps s).filter (fun c => decide (c.name ∉ s.comps))
+      = comps.filter (fun c => decide (c.name ∉ s.comps)) :=
+  stratifyComps_untouched comps s
+
+theorem length (comps : List Comp) (s : Strat α) :
+    (stratifyComps comps s).length
+      = (comps.map (fun c => if c.name ∈ s.comps then s.strata.length else 1)).sum :=
+  stratifyComps_length comps s
+
+example : stratifyComps [⟨"S", []⟩, ⟨"I", []⟩, ⟨"R", []⟩] (Spec.Ex.strat .plain "loc" ["u", "r"] ["I"] [])
+    = [⟨"S", []⟩, ⟨"I", [("loc", "u")]⟩, ⟨"I", [("loc", "r")]⟩, ⟨"R", []⟩] := by decide
+
+/-! ### `C12.nodup` -/
+
+/-- one stratification step: distinct compartments, distinct strata and a fresh stratification name
+give distinct compartments, and strata dictionaries keep distinct keys -/
+theorem nodup {comps : List Comp} {s : Strat α} (hn : comps.Nodup) (hs : s.strata.Nodup)
+    (hfresh : ∀ c ∈ comps, ¬ HasKey c.strata s.name) (hk : ∀ c ∈ comps, KeysNodup c.strata) :
+    (stratifyComps comps s).Nodup ∧ ∀ c ∈ stratifyComps comps s, KeysNodup c.strata :=
+  ⟨stratifyComps_nodup hn hs hfresh, stratifyComps_keys hk⟩
+
+example : let comps : List Comp := [⟨"S", [("age", "0")]⟩, ⟨"S", [("age", "5")]⟩]
+    let s := Spec.Ex.strat .plain "loc" ["u", "r"] ["S"] []
+    comps.Nodup ∧ s.strata.Nodup ∧ (∀ c ∈ comps, ¬ HasKey c.strata s.name) ∧ (∀ c ∈ comps, KeysNodup c.strata) := by
+  decide
+
+/-- the hypothesis `s.strata.Nodup` cannot be dropped: repeated strata give repeated compartments -/
+example : ¬ (stratifyComps [⟨"S", []⟩] (Spec.Ex.strat .plain "loc" ["u", "u"] ["S"] [])).Nodup := by decide
+
+end
+
+section
+variable {α : Type} [One α] [Div α] [NatCast α]
+
+/-- `stratify_with` refuses a name that already exists, so the name is fresh for every compartment -/
+theorem stratifyWith_fresh {m m' : Model α} {s : Strat α} (h : Inv m) (hok : stratifyWith m s = .ok m') :
+    (∀ c ∈ m.comps, ¬ HasKey c.strata s.name) ∧ m'.comps = stratifyComps m.comps s := by
+  rcases stratifyWith_ok (shape_lite h) hok with ⟨_, R⟩
+  exact ⟨fresh_of_inv h R.fresh, R.comps⟩
+
+/-! ### `C12.endpoints` : the invariant is established and preserved -/
+
+omit [One α] [Div α] [NatCast α] in
+theorem inv_mkModel [LT α] [DecidableLT α] {t0 t1 dt : α} {ws : Option Nat} {names inf : List String} {m : Model α}
+    (hn : names.Nodup) (h : mkModel t0 t1 dt ws names inf = .ok m) : Inv m :=
+  (Proofs.Structure.inv_mkModel hn h).1
+
+/-- all six `FlowOp` constructors -/
+theorem inv_addFlow {m m' : Model α} {op : FlowOp α} (h : Inv m) (hok : addFlow m op = .ok m') : Inv m' :=
+  Proofs.Structure.inv_addFlow h hok
+
+theorem inv_stratifyWith {m m' : Model α} {s : Strat α} (h : Inv m) (hs : s.strata.Nodup)
+    (hok : stratifyWith m s = .ok m') : Inv m' :=
+  Proofs.Structure.inv_stratifyWith h hs hok
+
+/-- every reachable model satisfies the invariant -/
+theorem reachable_inv [LT α] [DecidableLT α] {m : Model α} (h : Reachable m) : Inv m :=
+  Proofs.Structure.reachable_inv h
+
+/-- `C12.nodup` for every reachable model -/
+theorem reachable_nodup [LT α] [DecidableLT α] {m : Model α} (h : Reachable m) :
+    m.comps.Nodup ∧ ∀ c ∈ m.comps, KeysNodup c.strata :=
+  ⟨(reachable_inv h).nodup, (reachable_inv h).keys⟩
+
+/-- `C12.endpoints`: in every reachable model every flow end is a compartment of the model, the
+index computed by `Run.compIdx` (used by `prepare`) exists, points at that compartment, and is its
+only position. -/
+theorem endpoints [LT α] [DecidableLT α] {m : Model α} (h : Reachable m) {f : Flow α} (hf : f ∈ m.flows) :
+    (∀ c, f.src = some c → c ∈ m.comps ∧ ∃ i, Run.compIdx m.comps c = some i ∧ m.comps[i]? = some c
+        ∧ ∀ j, m.comps[j]? = some c → j = i) ∧
+    (∀ c, f.dst = some c → c ∈ m.comps ∧ ∃ i, Run.compIdx m.comps c = some i ∧ m.comps[i]? = some c
+        ∧ ∀ j, m.comps[j]? = some c → j = i) := by
+  have hI := reachable_inv h
+  have hw := compIdx_of_wf hI.wf hf
+  refine ⟨fun c hc => ⟨(hI.wf f hf).1 c hc, ?_⟩, fun c hc => ⟨(hI.wf f hf).2 c hc, ?_⟩⟩
+  · rcases hw.1 c hc with ⟨i, h1, h2⟩
+    exact ⟨i, h1, h2, fun j hj => indexOf?_unique hI.nodup h1 hj⟩
+  · rcases hw.2 c hc with ⟨i, h1, h2⟩
+    exact ⟨i, h1, h2, fun j hj => indexOf?_unique hI.nodup h1 hj⟩
+
+/-- flows have the ends their class prescribes, in every reachable model -/
+theorem reachable_shape [LT α] [DecidableLT α] {m : Model α} (h : Reachable m) : ∀ f ∈ m.flows, FlowShape f :=
+  (reachable_inv h).shape
+
+end
+
+/-! ### non-vacuity: a reachable model with a stratification followed by a flow added afterwards -/
+
+open Spec.Ex in
+example : ∃ m0 m1 m2 : Model Int,
+    mkModel 0 10 1 (some 10) ["S", "I"] ["I"] = .ok m0
+    ∧ stratifyWith m0 (strat .plain "loc" ["u", "r"] ["S"] []) = .ok m1
+    ∧ addFlow m1 (.transition .infFreq "infection" true (.const 2) "S" "I" [("loc", "u")] [] none) = .ok m2
+    ∧ Reachable m2 ∧ m2.comps.length = 3 ∧ m2.flows.length = 1 :=
+  ⟨_, _, _, rfl, rfl, rfl,
+    Reachable.flow _ _ (.transition .infFreq "infection" true (.const 2) "S" "I" [("loc", "u")] [] none) (Reachable.strat _ _ (strat .plain "loc" ["u", "r"] ["S"] []) (Reachable.mk 0 10 1 (some 10) ["S", "I"] ["I"] _ (by decide) rfl)
+      (by decide) rfl) rfl, rfl, rfl⟩
+
+end Summer.C12
+
+#print axioms Summer.C12.in_place
+#print axioms Summer.C12.in_place_stratified
+#print axioms Summer.C12.in_place_untouched
+#print axioms Summer.C12.untouched_order
+#print axioms Summer.C12.length
+#print axioms Summer.C12.nodup
+#print axioms Summer.C12.stratifyWith_fresh
+#print axioms Summer.C12.inv_mkModel
+#print axioms Summer.C12.inv_addFlow
+#print axioms Summer.C12.inv_stratifyWith
+#print axioms Summer.C12.reachable_inv
+#print axioms Summer.C12.reachable_nodup
+#print axioms Summer.C12.endpoints
+#print axioms Summer.C12.reachable_shape
